@@ -136,9 +136,14 @@ def run(ctx):
     g("R19.1", "entry-point:builtin-in-table", vep, CallResult("::contains", False, arg="c:get_generic_id"),
       err=(SSCE, "InvalidBuiltinType"))
     for nm, ty in (("system_ty", "SystemType"), ("gas_ty", "GasBuiltinType")):
-        g("R19.1", "entry-point:last-builtins:" + nm, vep,
-          Cmp("ne", ["c:get_generic_id", "n:" + nm], ["c:id", "targ:" + ty]), rel="ne",
-          err=(SSCE, "InvalidEntryPointSignatureWrongBuiltinsOrder"), bypass="none")
+        ctx.analysed(vep)
+        r_ = check_guard(vep, Cmp("ne", ["c:get_generic_id", "n:" + nm], ["c:id", "targ:" + ty]), expect_rel="ne",
+                         err=(SSCE, "InvalidEntryPointSignatureWrongBuiltinsOrder"), bypass="none")
+        if not r_.ok:
+            # the local may have been renamed: the comparison with <ty>::id() is still required
+            r_ = check_guard(vep, Cmp("ne", ["c:get_generic_id"], ["c:id", "targ:" + ty]), expect_rel="ne",
+                             err=(SSCE, "InvalidEntryPointSignatureWrongBuiltinsOrder"), bypass="none")
+        ctx.ob("R19.1", "entry-point:last-builtins:" + nm, r_.ok, r_.msg, vep.where(r_.line))
     for var in ("InvalidEntryPointSignature", "InvalidEntryPointSignatureMissingArgs"):
         ctx.ob("R19.1", "entry-point:split-guards:" + var, bool(blocks_constructing(vep, SSCE, var)),
                "signature split failures are rejected", vep.where())
